@@ -76,3 +76,49 @@ Definition dump (l : loaded) : option (list bytes * list trans) :=
   | Some f, Some r => Some (f, r)
   | _, _ => None
   end.
+
+(* ------------------------------------------------------------------------------------------ *)
+(* the finite-automaton encoding (src/explicit_finite_aut_core.hh): symbols are names; a nullary rule
+   s -> q puts q into startStates_ and s into startStateToSymbols_[q]; a unary rule is an edge; any other
+   arity throws.  The dump writes, per start state, ONE nullary rule with a symbol picked from the set
+   (first element of an unordered_set: [pick] is the implementation's choice), and every edge. *)
+Record nfa_l := mkNfa { f_finals : list N; f_starts : list (N * N); f_edges : list (N * N * N) }.
+Record fa_loaded := mkFaLoaded { fl_aut : nfa_l; fl_states : dict bytes; fl_syms : dict bytes }.
+
+Definition fa_state_keys (d : desc) : list bytes := d_finals d ++ flat_map (fun t => t_ch t ++ [t_par t]) (d_trans d).
+Definition fa_sym_keys (d : desc) : list bytes := map fst (d_syms d) ++ map t_sym (d_trans d).
+
+Definition load_fa (d : desc) : option fa_loaded :=
+  if is_fa d then
+    let sd := number_all beq (fa_state_keys d) in
+    let yd := number_all beq (fa_sym_keys d) in
+    Some (mkFaLoaded
+      (mkNfa (map (fwd beq sd) (d_finals d))
+             (map (fun t => (fwd beq sd (t_par t), fwd beq yd (t_sym t))) (filter nullary (d_trans d)))
+             (flat_map (fun t => match t_ch t with
+                                 | [c] => [(fwd beq sd c, fwd beq yd (t_sym t), fwd beq sd (t_par t))]
+                                 | _ => []
+                                 end) (d_trans d)))
+      sd yd)
+  else None.
+
+Definition start_states (a : nfa_l) : list N := nodup N.eq_dec (map fst (f_starts a)).
+Definition syms_of (a : nfa_l) (s : N) : list N := map snd (filter (fun p => fst p =? s) (f_starts a)).
+
+Definition dump_start (pick : list N -> N) (l : fa_loaded) (s : N) : option trans :=
+  match back (pick (syms_of (fl_aut l) s)) (fl_syms l), back s (fl_states l) with
+  | Some y, Some q => Some (mkTrans [] y q)
+  | _, _ => None
+  end.
+Definition dump_edge (l : fa_loaded) (e : N * N * N) : option trans :=
+  match back (fst (fst e)) (fl_states l), back (snd (fst e)) (fl_syms l), back (snd e) (fl_states l) with
+  | Some p, Some y, Some q => Some (mkTrans [p] y q)
+  | _, _, _ => None
+  end.
+Definition dump_fa (pick : list N -> N) (l : fa_loaded) : option (list bytes * list trans) :=
+  match map_opt (fun q => back q (fl_states l)) (f_finals (fl_aut l)),
+        map_opt (dump_start pick l) (start_states (fl_aut l)),
+        map_opt (dump_edge l) (f_edges (fl_aut l)) with
+  | Some f, Some s, Some e => Some (f, s ++ e)
+  | _, _, _ => None
+  end.
